@@ -10,6 +10,10 @@ PROPS = {
     'C10': ('contracts.c10', 'proof',
             'time/memory limit wiring: execute/limit_resources/'
             'do_golden_runs/matches_golden on timed-out records'),
+    'C04': ('contracts.c04', 'proof',
+            'exception freedom of main-process functions on all '
+            's-expression shapes; containment of mutator failures; exit '
+            'status'),
 }
 
 
